@@ -3,7 +3,8 @@
 (* Sequential maintenance histories with reachability (C10).               *)
 (* A linear universe of commits 1..N (commit i has parent i-1; its tree    *)
 (* and blob are private to it, so "commit i present" stands for the three  *)
-(* objects) plus annotated tags.  State: which commits exist and where     *)
+(* objects) plus one annotated tag object (id N+2, naming commit 2) and an *)
+(* alternate object store that maintenance never touches.  State: which commits exist and where     *)
 (* (loose / in which pack), the refs, and whether a commit is old enough   *)
 (* to be pruned.  Actions are the builders and maintenance entry points of *)
 (* dulwich; the harness replays every action of every generated behaviour  *)
@@ -18,58 +19,71 @@ VARIABLES loose,      \* set of commits stored loose
           refs,       \* Names -> 0..N  (0 = absent)
           oldL,       \* loose commits whose files are older than the grace period
           oldP,       \* sequence of BOOLEAN parallel to packs: the pack file is older than the grace period
+          alt,        \* objects held by the alternate object store (objects/info/alternates)
           hist        \* the behaviour so far (replayed by the harness)
-vars == <<loose, packs, refs, oldL, oldP, hist>>
+vars == <<loose, packs, refs, oldL, oldP, alt, hist>>
 
 Commits == 1..N
-Present == loose \cup UNION {packs[i] : i \in 1..Len(packs)}
-Anc(c) == 1..c
+TagTargets == {c \in Commits : c = 2}          \* the commits that can carry an annotated tag object
+TagOf(c) == N + c
+Objects == Commits \cup {TagOf(c) : c \in TagTargets}
+Local == loose \cup UNION {packs[i] : i \in 1..Len(packs)}
+Present == Local \cup alt
+\* everything an object needs: a commit its history, a tag object itself and the history of its commit
+Anc(x) == IF x <= N THEN 1..x ELSE {x} \cup (1..(x - N))
+Needs(x) == Anc(x) \ {x}
 Reachable == UNION {Anc(refs[n]) : n \in {m \in Names : refs[m] # 0}}
 Log(a) == hist' = Append(hist, a)
 
-Init == loose = {} /\ packs = <<>> /\ refs = [n \in Names |-> 0] /\ oldL = {} /\ oldP = <<>> /\ hist = <<>>
+Init == loose = {} /\ packs = <<>> /\ refs = [n \in Names |-> 0] /\ oldL = {} /\ oldP = <<>> /\ alt = {} /\ hist = <<>>
 
 \* "older than the grace period" in the sense of the statement: no copy of the commit was written recently
 AllOld(c) == /\ (c \in loose => c \in oldL)
              /\ \A i \in 1..Len(packs) : c \in packs[i] => oldP[i]
-\* what a pruning gc with the default grace period may remove
-Prunable == {c \in Present \ Reachable : AllOld(c)}
+\* what a pruning gc with the default grace period may remove (never anything the alternate store holds)
+Prunable == {c \in Present \ Reachable : c \notin alt /\ AllOld(c)}
 
 \* create commit c (needs its parent) as loose objects; optionally point a ref at it
 AddLoose(c) ==
-    /\ c \notin Present /\ (c = 1 \/ c - 1 \in Present)
-    /\ loose' = loose \cup {c} /\ UNCHANGED <<packs, refs, oldL, oldP>>
+    /\ c \notin Present /\ Needs(c) \subseteq Present
+    /\ loose' = loose \cup {c} /\ UNCHANGED <<packs, refs, oldL, oldP, alt>>
     /\ Log([a |-> "add_loose", c |-> c, n |-> "", s |-> {}])
 \* add_object of content that is already stored loose freshens the file's mtime
 ReAdd(c) ==
     /\ c \in loose /\ c \in oldL
-    /\ oldL' = oldL \ {c} /\ UNCHANGED <<loose, packs, refs, oldP>>
+    /\ oldL' = oldL \ {c} /\ UNCHANGED <<loose, packs, refs, oldP, alt>>
     /\ Log([a |-> "re_add", c |-> c, n |-> "", s |-> {}])
 \* two weeks and a day pass: every file present now is older than every grace period
 Age ==
-    /\ Present # {} /\ (oldL # loose \/ \E i \in 1..Len(packs) : ~oldP[i])
-    /\ oldL' = loose /\ oldP' = [i \in 1..Len(packs) |-> TRUE] /\ UNCHANGED <<loose, packs, refs>>
+    /\ Local # {} /\ (oldL # loose \/ \E i \in 1..Len(packs) : ~oldP[i])
+    /\ oldL' = loose /\ oldP' = [i \in 1..Len(packs) |-> TRUE] /\ UNCHANGED <<loose, packs, refs, alt>>
     /\ Log([a |-> "age", c |-> 0, n |-> "", s |-> {}])
 \* write commits as a new pack (objects already present elsewhere are duplicated)
 AddPack(S) ==
     /\ S # {} /\ Len(packs) < MaxPacks
-    /\ \A c \in S : c = 1 \/ c - 1 \in Present \cup S
-    /\ packs' = Append(packs, S) /\ oldP' = Append(oldP, FALSE) /\ UNCHANGED <<loose, refs, oldL>>
+    /\ \A c \in S : Needs(c) \subseteq Present \cup S
+    /\ packs' = Append(packs, S) /\ oldP' = Append(oldP, FALSE) /\ UNCHANGED <<loose, refs, oldL, alt>>
     /\ Log([a |-> "add_pack", c |-> 0, n |-> "", s |-> S])
+\* objects stored in the alternate object store (a second objects directory listed in info/alternates)
+AddAlt(S) ==
+    /\ S # {} /\ S \cap alt = {}
+    /\ \A c \in S : Needs(c) \subseteq Present \cup S
+    /\ alt' = alt \cup S /\ UNCHANGED <<loose, packs, refs, oldL, oldP>>
+    /\ Log([a |-> "add_alt", c |-> 0, n |-> "", s |-> S])
 \* a ref is only ever pointed at a commit whose history is complete (gc with a grace period may
 \* legitimately have removed an old unreachable ancestor of a recent unreachable commit: the statement
 \* allows it; C git keeps such ancestors since 2.2, dulwich does not -- an observation, not a C10 violation)
 SetRef(n, c) ==
     /\ Anc(c) \subseteq Present /\ refs[n] # c
-    /\ refs' = [refs EXCEPT ![n] = c] /\ UNCHANGED <<loose, packs, oldL, oldP>>
+    /\ refs' = [refs EXCEPT ![n] = c] /\ UNCHANGED <<loose, packs, oldL, oldP, alt>>
     /\ Log([a |-> "set_ref", c |-> c, n |-> n, s |-> {}])
 DelRef(n) ==
     /\ refs[n] # 0
-    /\ refs' = [refs EXCEPT ![n] = 0] /\ UNCHANGED <<loose, packs, oldL, oldP>>
+    /\ refs' = [refs EXCEPT ![n] = 0] /\ UNCHANGED <<loose, packs, oldL, oldP, alt>>
     /\ Log([a |-> "del_ref", c |-> 0, n |-> n, s |-> {}])
 PackLoose ==
     /\ loose # {}
-    /\ packs' = Append(packs, loose) /\ oldP' = Append(oldP, FALSE) /\ loose' = {} /\ oldL' = {} /\ UNCHANGED refs
+    /\ packs' = Append(packs, loose) /\ oldP' = Append(oldP, FALSE) /\ loose' = {} /\ oldL' = {} /\ UNCHANGED <<refs, alt>>
     /\ Log([a |-> "pack_loose", c |-> 0, n |-> "", s |-> {}])
 \* C git's `maintenance run --task=loose-objects`: loose objects that are packed already are removed,
 \* the remaining ones are copied into a pack named loose-<hash> (and stay loose until the next run)
@@ -80,40 +94,42 @@ GitMaintLoose ==
          /\ loose' = rest /\ oldL' = oldL \cap rest
          /\ packs' = (IF rest = {} THEN packs ELSE Append(packs, rest))
          /\ oldP' = (IF rest = {} THEN oldP ELSE Append(oldP, FALSE))
-    /\ UNCHANGED refs
+    /\ UNCHANGED <<refs, alt>>
     /\ Log([a |-> "git_maint_loose", c |-> 0, n |-> "", s |-> {}])
 Repack ==
-    /\ Present # {}
-    /\ packs' = <<Present>> /\ oldP' = <<FALSE>> /\ loose' = {} /\ oldL' = {} /\ UNCHANGED refs
+    /\ Local # {}
+    /\ packs' = <<Local>> /\ oldP' = <<FALSE>> /\ loose' = {} /\ oldL' = {} /\ UNCHANGED <<refs, alt>>
     /\ Log([a |-> "repack", c |-> 0, n |-> "", s |-> {}])
 \* gc with grace period 0: everything unreachable goes, everything reachable ends up in one pack
 GcPrune ==
-    /\ Present # {}
-    /\ packs' = (IF Reachable = {} THEN <<>> ELSE <<Reachable>>)
-    /\ oldP' = (IF Reachable = {} THEN <<>> ELSE <<FALSE>>)
-    /\ loose' = {} /\ oldL' = {} /\ UNCHANGED refs
+    /\ Local # {}
+    /\ LET keep == Reachable \cap Local IN
+         /\ packs' = (IF keep = {} THEN <<>> ELSE <<keep>>)
+         /\ oldP' = (IF keep = {} THEN <<>> ELSE <<FALSE>>)
+    /\ loose' = {} /\ oldL' = {} /\ UNCHANGED <<refs, alt>>
     /\ Log([a |-> "gc0", c |-> 0, n |-> "", s |-> {}])
 \* gc with the default grace period: unreachable commits none of whose copies is recent go, the rest is repacked
 GcKeep ==
-    /\ Present # {}
-    /\ LET keep == Present \ Prunable IN
+    /\ Local # {}
+    /\ LET keep == Local \ {c \in Local \ Reachable : AllOld(c)} IN
          /\ packs' = (IF keep = {} THEN <<>> ELSE <<keep>>)
          /\ oldP' = (IF keep = {} THEN <<>> ELSE <<FALSE>>)
-    /\ loose' = {} /\ oldL' = {} /\ UNCHANGED refs
+    /\ loose' = {} /\ oldL' = {} /\ UNCHANGED <<refs, alt>>
     /\ Log([a |-> "gc_default", c |-> 0, n |-> "", s |-> {}])
 \* DiskObjectStore.prune(): removes stale temporary files only; never an object
-Prune    == /\ Present # {} /\ UNCHANGED <<loose, packs, refs, oldL, oldP>> /\ Log([a |-> "prune", c |-> 0, n |-> "", s |-> {}])
-PackRefs == /\ UNCHANGED <<loose, packs, refs, oldL, oldP>> /\ Log([a |-> "pack_refs", c |-> 0, n |-> "", s |-> {}])
-Midx     == /\ Len(packs) > 0 /\ UNCHANGED <<loose, packs, refs, oldL, oldP>> /\ Log([a |-> "write_midx", c |-> 0, n |-> "", s |-> {}])
-CGraph   == /\ Reachable # {} /\ UNCHANGED <<loose, packs, refs, oldL, oldP>> /\ Log([a |-> "write_commit_graph", c |-> 0, n |-> "", s |-> {}])
+Prune    == /\ Present # {} /\ UNCHANGED <<loose, packs, refs, oldL, oldP, alt>> /\ Log([a |-> "prune", c |-> 0, n |-> "", s |-> {}])
+PackRefs == /\ UNCHANGED <<loose, packs, refs, oldL, oldP, alt>> /\ Log([a |-> "pack_refs", c |-> 0, n |-> "", s |-> {}])
+Midx     == /\ Len(packs) > 0 /\ UNCHANGED <<loose, packs, refs, oldL, oldP, alt>> /\ Log([a |-> "write_midx", c |-> 0, n |-> "", s |-> {}])
+CGraph   == /\ Reachable # {} /\ UNCHANGED <<loose, packs, refs, oldL, oldP, alt>> /\ Log([a |-> "write_commit_graph", c |-> 0, n |-> "", s |-> {}])
 
 Next ==
     /\ Len(hist) < MaxLen
-    /\ \/ \E c \in Commits : AddLoose(c)
-       \/ \E S \in SUBSET Commits : AddPack(S)
-       \/ \E n \in Names, c \in Commits : SetRef(n, c)
+    /\ \/ \E c \in Objects : AddLoose(c)
+       \/ \E S \in SUBSET Objects : AddPack(S)
+       \/ \E S \in SUBSET Objects : AddAlt(S)
+       \/ \E n \in Names, c \in Objects : SetRef(n, c)
        \/ \E n \in Names : DelRef(n)
-       \/ \E c \in Commits : ReAdd(c)
+       \/ \E c \in Objects : ReAdd(c)
        \/ Age \/ Prune \/ GitMaintLoose
        \/ PackLoose \/ Repack \/ GcPrune \/ GcKeep \/ PackRefs \/ Midx \/ CGraph
 
@@ -121,13 +137,13 @@ Spec == Init /\ [][Next]_vars
 
 (***************************************************************************)
 (* Directed exploration: every sequence of maintenance steps (no builders) *)
-(* after four fixed build prefixes  -- an unreachable loose commit above a *)
+(* after five fixed build prefixes  -- an unreachable loose commit above a *)
 (* reachable one; a pack plus a loose commit; a commit stored twice.  The  *)
 (* harness replays ALL of these behaviours, not a sample.                  *)
 (***************************************************************************)
 E(a, c, n, s) == [a |-> a, c |-> c, n |-> n, s |-> s]
 InitD ==
-    /\ oldL = {} /\ refs \in {[n \in Names |-> IF n = "refs/heads/a" THEN 1 ELSE 0]}
+    /\ oldL = {} /\ alt = {} /\ refs \in {[n \in Names |-> IF n = "refs/heads/a" THEN 1 ELSE 0]}
     /\ \/ /\ loose = {1, 2} /\ packs = <<>> /\ oldP = <<>>
           /\ hist = <<E("add_loose", 1, "", {}), E("add_loose", 2, "", {}), E("set_ref", 1, "refs/heads/a", {})>>
        \/ /\ loose = {3} /\ packs = <<{1, 2}>> /\ oldP = <<FALSE>>
@@ -137,16 +153,23 @@ InitD ==
     \* fourth prefix: everything lives in a pack written by C git's maintenance (named loose-<hash>), both
     \* commits reachable; its five steps do not count against the length bound
 InitD4 ==
-    /\ oldL = {} /\ refs = [n \in Names |-> IF n = "refs/heads/a" THEN 2 ELSE 0]
+    /\ oldL = {} /\ alt = {} /\ refs = [n \in Names |-> IF n = "refs/heads/a" THEN 2 ELSE 0]
     /\ loose = {} /\ packs = <<{1, 2}>> /\ oldP = <<FALSE>>
     /\ hist = <<E("add_loose", 1, "", {}), E("add_loose", 2, "", {}), E("set_ref", 2, "refs/heads/a", {}),
                 E("git_maint_loose", 0, "", {}), E("git_maint_loose", 0, "", {})>>
-DirectedPrefix == IF hist[3].c = 2 THEN 5 ELSE 3
+    \* fifth prefix: history 1,2 only in the alternate store, commit 3 and the tag object of 2 loose; the branch
+    \* names 1, the tag ref names the tag object (so 2 is reachable only through the tag), 3 is unreachable
+InitD5 ==
+    /\ oldL = {} /\ alt = {1, 2} /\ loose = {3, TagOf(2)} /\ packs = <<>> /\ oldP = <<>>
+    /\ refs = [n \in Names |-> IF n = "refs/heads/a" THEN 1 ELSE IF n = "refs/tags/t" THEN TagOf(2) ELSE 0]
+    /\ hist = <<E("add_alt", 0, "", {1, 2}), E("add_loose", 3, "", {}), E("add_loose", TagOf(2), "", {}),
+                E("set_ref", 1, "refs/heads/a", {}), E("set_ref", TagOf(2), "refs/tags/t", {})>>
+DirectedPrefix == IF hist[1].a = "add_alt" \/ hist[3].c = 2 THEN 5 ELSE 3
 NextMaint ==
     /\ Len(hist) < MaxLen + (DirectedPrefix - 3)
-    /\ \/ \E c \in Commits : ReAdd(c)
+    /\ \/ \E c \in Objects : ReAdd(c)
        \/ Age \/ Prune \/ GitMaintLoose \/ PackLoose \/ Repack \/ GcPrune \/ GcKeep \/ Midx
-SpecD == (InitD \/ InitD4) /\ [][NextMaint]_vars
+SpecD == (InitD \/ InitD4 \/ InitD5) /\ [][NextMaint]_vars
 
 \* maintenance never loses a reachable object
 ReachablePreserved == Reachable \subseteq Present
@@ -154,5 +177,5 @@ ReachablePreserved == Reachable \subseteq Present
 \* and has no recent copy (action properties)
 OnlyGcRemoves == [][Present \subseteq Present' \/ hist'[Len(hist')].a \in {"gc0", "gc_default"}]_vars
 GraceRespected == [][hist'[Len(hist')].a = "gc_default" => (Present \ Present') \subseteq Prunable]_vars
-TypeOK == oldL \subseteq loose /\ Len(oldP) = Len(packs)
+TypeOK == oldL \subseteq loose /\ Len(oldP) = Len(packs) /\ Present \subseteq Objects
 =============================================================================
